@@ -64,6 +64,9 @@ def c02():
         j("c02_paths_all_tri_2", T, 200, "all 12 read paths, N=2"),
         j("c02_paths_all_other_2", T, 200, "all 12 read paths, second archetype sharing a component type"),
         j("c02_paths_all_bar_2", T, 200, "all 12 read paths, 2-column archetype of W1"),
+        j("c02_paths_keys_tri_3", Q, 250, "keys of every kind (typed, dynamic, direct, direct-dynamic) reach the designated entity's values through find/find_borrow/view/borrow/resolve"),
+        j("c02_paths_keys_foo_3", T, 200, "same, 1 column"),
+        j("c02_paths_keys_other_2", T, 200, "same, second archetype"),
         j("c02_write_queries_tri_2", Q, 300, "write through any query macro, read through any of 12 paths, rest unchanged"),
         j("c02_write_others_tri_2", Q, 300, "write through view/borrow/slices/iter_mut, read through any of 12 paths"),
         j("c02_write_queries_tri_3", T, 400, "write via queries N=3"),
@@ -172,6 +175,12 @@ def c06():
         j("c06_arch_iter_tri_3", Q, 150, "Archetype::iter / iter_mut / entities()"),
         j("c06_arch_iter_other_3", T, 150, "Archetype::iter / iter_mut, 2 columns"),
         j("c06_arch_iter_tri_4", T, 250, "Archetype::iter / iter_mut N=4"),
+        j("c06_after_destroy_iter_3", Q, 200, "destroy an arbitrary entity from an arbitrary state, then ecs_iter!: exactly the survivors, once, with their own handle and components (expectation from the pre-state)"),
+        j("c06_after_destroy_slices_4", Q, 250, "same through entities() + get_slice, N=4"),
+        j("c06_after_destroy_iter_borrow_3", T, 200, "same through ecs_iter_borrow!"),
+        j("c06_after_destroy_arch_iter_3", T, 200, "same through Archetype::iter"),
+        j("c06_after_create_iter_3", T, 200, "create then ecs_iter!"),
+        j("c06_after_create_slices_3", T, 150, "create then slices"),
         j("c06_slices_tri_3", Q, 100, "get_slice / borrow_slice / get_all_slices_mut lengths and pairing"),
         j("c06_slices_tri_4", T, 150, "slice accessors N=4"),
     ]
